@@ -513,7 +513,10 @@ def oracle(xm, sp, kwargs, xm2, saved, loaded, exc):
             fail(f"prop-missing:{typ}", f"column {cname!r} does not come back as a property", sp)
             continue
         got = np.asarray(xm2.prop[cname], dtype=float)
-        vals = None if src is None else layer(xm.prop[src], idx)
+        try:
+            vals = None if src is None else layer(xm.prop[src], idx)
+        except IndexError:
+            continue      # the property has no such layer (the writer did not use it either)
         for k in range(box.size):
             if ind_map[k]:
                 w = 0.0 if vals is None else f32_5(vals[box[k]])
